@@ -27,7 +27,7 @@ HARNESSES = {
                      "k17_2_mask_into_slice_bounds", "k17_2_mask_into_slice_real", "k17_3_token_range_test"],
                 c17_fail=["k17_witness_must_fail"]),
     "builder": dict(c19=["k19_1_negated_ranges_n1", "k19_1_negated_ranges_n2", "k19_1_negated_ranges_n3"], c19_fail=["k19_1_witness_must_fail"]),
-    "parser": dict(c20=["c20_item_packing"]),
+    "parser": dict(c20=["c20_item_packing"], c13=["k13_3_forced_byte_probe"], c13_fail=["k13_3_witness_must_fail"]),
     "lexerspec": dict(c19=["k19_2_contains_token"]),
 }
 
@@ -150,6 +150,23 @@ def slice_negated():
     raise SliceError("end anchor `negated` not found after the start anchor in grammar_builder.rs")
 
 
+def slice_forced_byte():
+    """statements of the speculative closure of ParserState::forced_byte after `let mut r = ParserRecognizer { state };`"""
+    src = open(os.path.join(REPO, "parser/src/earley/parser.rs")).read().splitlines()
+    idx = [i for i, l in enumerate(src) if 'self.run_speculative("forced_byte", |state| {' in l]
+    if len(idx) != 1:
+        raise SliceError('anchor `self.run_speculative("forced_byte", |state| {` not found exactly once in parser.rs')
+    body = _block_after(src, idx[0])
+    while body and not body[0].strip():
+        body.pop(0)
+    if not body or body[0].strip() != "let mut r = ParserRecognizer { state };":
+        raise SliceError("forced_byte closure does not start with `let mut r = ParserRecognizer { state };` any more")
+    body = body[1:]
+    if not any("try_push_byte" in l for l in body):
+        raise SliceError("forced_byte closure does not probe with try_push_byte any more")
+    return "{\n" + "\n".join(body) + "\n}\n"
+
+
 def prepare(tag, mods):
     """returns overlay with the requested harness modules injected. raises SliceError / FileNotFoundError (-> inconclusive)"""
     ov = e1.Overlay(tag)
@@ -160,6 +177,8 @@ def prepare(tag, mods):
         if "ffi" in mods:
             ov.write("parser/src/verif_ffi_par_slice.rs", slice_ffi_par())
             ov.write("parser/src/verif_ffi_token_slice.rs", slice_ffi_token())
+        if "parser" in mods:
+            ov.write("parser/src/earley/verif_forced_byte_slice.rs", slice_forced_byte())
         if "builder" in mods:
             ov.write("parser/src/verif_negated_slice.rs", slice_negated())
     except Exception:
